@@ -15,6 +15,7 @@ Line protocol of the C03 model.
   C03 jrange <col i|u> <values supplied as i|u> <lk> <lt> <lv> <uk> <ut> <uv> <values>   JSON numeric range: impl bits | spec bits | column type as predicted
   C03 ffrange <lk> <lv> <uk> <uv> <col min> <col max> <full 0|1>   scorer chosen by search_on_u64_ff: empty | all | range:st:en
   C03 jmerge <t:min:max,…>                 column type of the merged segment (i | u | f)
+  C03 jwritten <s:v,…>                     write-time column type of values supplied as i64 / u64 (i | u | f)
   C03 wf <corpus>                         hypotheses `Seg.wf` and `DocsWf` of C03_search_eq_answer_concrete on this corpus
   C03 guard                               does BooleanWeight::scorer's single-clause branch honour msm (extracted)
   C03 slop <on|off> <slop> <l1/l2/…>      the two phrase-slop algorithms on adjusted position lists
@@ -253,6 +254,18 @@ def handle : List String → String
       | _ => none
     match (srcs.splitOn ",").mapM one with
     | some l => (match JsonRange.mergedCol l with | .i64 => "i" | .u64 => "u" | .f64 => "f")
+    | none => "bad-op"
+  | ["jwritten", vals] =>
+    -- vals: `s:v` separated by `,` with s ∈ i,u (supplied type)
+    let one (x : String) : Option (Bool × Int) :=
+      match x.splitOn ":" with
+      | [t, v] =>
+        match (if t == "i" then some false else if t == "u" then some true else none), v.toInt? with
+        | some b, some v => some (b, v)
+        | _, _ => none
+      | _ => none
+    match (vals.splitOn ",").mapM one with
+    | some l => (match JsonRange.writtenCol l with | .i64 => "i" | .u64 => "u" | .f64 => "f")
     | none => "bad-op"
   | ["i64", v] =>
     match v.toNat? with
